@@ -32,7 +32,7 @@ ResW(r, p) == IF r.bb[1] <= 8 * p[1] /\ 8 * p[1] <= r.bb[3] /\ r.bb[2] <= 8 * p[
               THEN WindAll(r.polys, <<8 * p[1], 8 * p[2], 1>>, 1, 0) ELSE 0
 
 (* sample lattice over the box <<x0, y0, x1, y1>> (user units): step = 2 (quarter unit) or 4 *)
-Lattice(box, step) == { <<step * i + 1, step * j + 1>> : i \in ((8 \div step) * box[1])..((8 \div step) * box[3] - 1),
+Lattice(box, step) == { <<step * i + 1, step * j + 2>> : i \in ((8 \div step) * box[1])..((8 \div step) * box[3] - 1),
                                                         j \in ((8 \div step) * box[2])..((8 \div step) * box[4] - 1) }
 
 Judge(c) ==
